@@ -11,7 +11,7 @@ from rv.harness import monitored_call, present, plain, snapshot_arg
 
 LEVEL = "exploration"
 RULE = ("histories of 20-90 calls, each played in its own fork of a pristine worker (so first-call-in-the-process situations occur in every history), mixing 11 partitioners, 5 packers, 3 coverers, 7 presentations, 10 output types, failing calls (oversize items, invalid cbldm arguments, infeasible ILP constraints) and "
-        "valueof failpoints (the value function raises at its n-th call, n from 1 to 3000, so that searches are aborted in mid-tree), each failing call followed (60%) by a battery of 5 probe calls to the search algorithms; value vectors, name sets and sizes come from a pool of 8 (six ordinary vectors plus two degenerate ones such as [0,0] or [7]) so that successive calls collide on names with different values; about 1% of the calls are larger integer programs (10 items x 5 bins, 11-13 items x 4 bins: >= 50 integer variables), always repeated at once; "
+        "valueof failpoints (the value function raises at its n-th call, n from 1 to 3000, so that searches are aborted in mid-tree), each failing call followed (60%) by a battery of 5 probe calls to the search algorithms; value vectors, name sets and sizes come from a pool of 8 (six ordinary vectors plus two degenerate ones such as [0,0] or [7]) so that successive calls collide on names with different values; about 0.2% of the calls are larger integer programs (10 items x 5 bins = 50 integer variables), always repeated at once (no fresh-state reference for them); "
         "evaluations = calls compared; non-trivial = calls sitting in a history that already contains >= 1 failing call and >= 5 distinct algorithms; distinct on (call, position-independent)")
 ASSUMPTIONS = ["the fresh-state reference is a fork of a process that has only imported prtpy (and mip)", "a module-state digest change is recorded, not alarmed (a future cache would be legitimate)"]
 FLOORS = {"quick": {"distinct_nontrivial": 400, "fresh_references": 800, "repeat_pairs": 200}, "thorough": {"distinct_nontrivial": 2000, "fresh_references": 4000, "repeat_pairs": 1000}}
@@ -153,11 +153,10 @@ SEARCHERS = ("snp", "rnp", "ckk", "cg", "dp", "cbldm")
 
 
 def draw_call(rng, pool, force_alg=None):
-    if force_alg is None and rng.random() < 0.006:
+    if force_alg is None and rng.random() < 0.002:
         # a LARGER integer program (10 items x 5 bins, or 11-13 items x 4 bins: 50 or more integer variables): solver options that depend on the model size (threads, presolve,
         # cut passes) are only switched on here; the call is always repeated at once and compared with the fresh state
-        k = rng.choice([5, 5, 4])
-        n = 10 if k == 5 else rng.randint(11, 13)
+        k, n = 5, 10          # 50 integer variables; solves in about a second (11-13 items x 4 bins take up to ten times longer and starved the histories of volume)
         return {"values": [rng.randint(1, 200) for _ in range(n)], "pres": rng.choice(["list", "dict_str"]), "pres_seed": 1, "ot": rng.choice(["Partition", "Sums", "PartitionAndSumsTuple"]),
                 "kind": "partition", "alg": "ilp", "k": k, "objective": [rng.choice(["maxmin", "minmax", "diff"]), None], "cls": "ilp_large", "always_repeat": True}
     vals = list(rng.choice(pool))
@@ -241,7 +240,7 @@ def run_history(rng, pool, zy, ctx, length):
             if not res2.get("timeout") and comparable(res2) != comparable(res):
                 ctx.violation("repeated_call_differs", alg, case, dict(w, first=res, second=res2))
                 continue
-        if case["alg"] not in SEARCHERS and rng.random() < 0.5:
+        if (case["alg"] not in SEARCHERS and rng.random() < 0.5) or case.get("cls") == "ilp_large":
             # the fresh-state reference costs a fork: always taken for the search algorithms, for half of the simple heuristics
             ctx.held(cls=f"{case['kind']}/{alg}/no_reference")
             algs_seen.add(alg)
